@@ -6,6 +6,7 @@ to values with one type rule) returns, step by step, and stays observably equal 
 Proofs: Proofs/ContextRefine.
 -/
 import EvalexprVerif.Proofs.ContextRefine
+import EvalexprVerif.Proofs.AgreeFnContext
 
 namespace Evalexpr.Spec.C04
 open Evalexpr Evalexpr.Spec
@@ -42,5 +43,17 @@ example : (runModel {} [.setValue ['a'] (.int 1), .setValue ['a'] (.string ['s']
     = [.ok (), .error (.expectedInt (.string ['s']))] := rfl
 /-- tuples of another length overwrite -/
 example : (runModel {} [.setValue ['a'] (.tuple [.int 1]), .setValue ['a'] (.tuple [])]).1 = [.ok (), .ok ()] := rfl
+
+/-! ### about the code as translated on this run
+`Gen.HashMapContext.set_value` is the body of `HashMapContext::set_value` (src/context/mod.rs) rendered by `translate_fn.py`
+(`get_mut` + `*existing_value = value` read as an update of that entry); it returns the result and the new context. -/
+theorem C04_type_safe_generated (h : HashMapCtx) (id : Str) (v old : Value)
+    (hold : alookup id h.vars = some old) (ht : old.type ≠ v.type) :
+    (Gen.HashMapContext.set_value h id v).1 = .error (Err.expectedType old v) := by
+  have h1 := C04_type_safe h id v old hold ht
+  rw [AgreeFn.fn_HashMapContext_set_value_agree] at h1
+  cases hr : (Gen.HashMapContext.set_value h id v).1 with
+  | error e => rw [hr] at h1; simpa [Except.map] using h1
+  | ok u => rw [hr] at h1; simp [Except.map] at h1
 
 end Evalexpr.Spec.C04
